@@ -14,6 +14,24 @@ theorem src_chunk (src : List Nat) (so a n : Nat) : ((src.drop so).drop a).take 
   rw [List.drop_drop]
 
 set_option maxRecDepth 100000 in
+/-- 256 bytes as four chunks of 64 -/
+theorem chunks4 (src : List Nat) (so : Nat) (hso : so + 256 ≤ src.length) :
+    (src.drop so).take 256 = (src.drop (so + 0)).take 64 ++ ((src.drop (so + 64)).take 64 ++ ((src.drop (so + 128)).take 64 ++
+      (src.drop (so + 192)).take 64)) := by
+  apply List.ext_getElem
+  · simp only [List.length_append, List.length_take, List.length_drop]; omega
+  · intro i h1 h2
+    simp only [List.length_take, List.length_drop] at h1
+    simp only [List.getElem_take, List.getElem_drop, List.getElem_append, List.length_take, List.length_drop]
+    split
+    · rfl
+    · split
+      · congr 1; omega
+      · split
+        · congr 1; omega
+        · congr 1; omega
+
+set_option maxRecDepth 100000 in
 set_option maxHeartbeats 1000000 in
 theorem xs16_spec (s : State) (hG : s.gpr.length = 16) (hV : s.vec.length = 32) (Mf : List Nat → List Region) (dbase dlen : Nat)
     (bf : Buf Mf dbase dlen) (src : List Nat) (sp : Nat) (hsrc : ∀ b, b.length = dlen → DataAt (Mf b) sp src) (hsb : ∀ x ∈ src, x < 2 ^ 8)
@@ -22,7 +40,8 @@ theorem xs16_spec (s : State) (hG : s.gpr.length = 16) (hV : s.vec.length = 32) 
     (ks : Nat → List Nat) (hks : ∀ r, r < 4 → vreg s (9 - r) < 2 ^ (8 * 64) ∧ lanes 8 64 (vreg s (9 - r)) = ks r ∧ (ks r).length = 64 ∧
       ∀ x ∈ ks r, x < 2 ^ 8) :
     ∃ s', execList xs16Code s = .ok s' ∧
-      s'.mem = Mf (spliceAt b0 doff (xorN ((src.drop so).take 256) (ks 0 ++ (ks 1 ++ (ks 2 ++ ks 3))))) ∧
+      s'.mem = Mf (spliceAt b0 doff (xorN ((src.drop (so + 0)).take 64) (ks 0) ++ (xorN ((src.drop (so + 64)).take 64) (ks 1) ++
+        (xorN ((src.drop (so + 128)).take 64) (ks 2) ++ xorN ((src.drop (so + 192)).take 64) (ks 3))))) ∧
       ∀ r, r < 4 → vreg s' (9 - r) = unlanes 8 (xorN ((src.drop (so + 64 * r)).take 64) (ks r)) := by
   have h64 : validVl 64 = true := by decide
   obtain ⟨gpr, vec, k, fl, mem, syms, frame⟩ := s
@@ -109,22 +128,6 @@ theorem xs16_spec (s : State) (hG : s.gpr.length = 16) (hV : s.vec.length = 32) 
       show spliceAt m3 _ _ = _
       rw [e2]; exact this
     rw [e3]
-    congr 1
-    have hsplit : (src.drop so).take 256 = c0 ++ (c1 ++ (c2 ++ c3)) := by
-      apply List.ext_getElem
-      · simp [c0, c1, c2, c3]; omega
-      · intro i h1 h2
-        simp only [List.length_take, List.length_drop] at h1
-        simp only [c0, c1, c2, c3, List.getElem_take, List.getElem_drop, List.getElem_append, List.length_take, List.length_drop]
-        split
-        · rfl
-        · split
-          · congr 1; omega
-          · split
-            · congr 1; omega
-            · congr 1; omega
-    rw [hsplit, xorN_append _ _ _ _ (by rw [(hc 0 (by omega)).1, k0.2.2.1]),
-      xorN_append _ _ _ _ (by rw [(hc 64 (by omega)).1, k1.2.2.1]), xorN_append _ _ _ _ (by rw [(hc 128 (by omega)).1, k2.2.2.1])]
     simp only [List.append_assoc]
     rfl
   · intro r hr
